@@ -272,6 +272,14 @@ class C07(TreeSpec):
     id = "C07"
     engine_every = 4
     judged = ("C07",)
+
+    def gen(self, r, tier, i):
+        plan = TreeSpec.gen(self, r, tier, i)
+        if r.random() < 0.12:
+            # a venue that pays a rebate on sales: the commission function returns a negative number there, and that is the fee
+            plan["cfg"]["comm"] = {"kind": "sided", "buy": r.choice([0.0005, 0.001]), "sell": -r.choice([0.0002, 0.0005])}
+            plan.setdefault("fired", {})["commission_rebate_on_sales"] = 1
+        return plan
     own_checks = ("rows_fees", "rows_flows", "rows_outlay", "rows_bidoffer_paid", "rows_strategy_bidoffer_paid", "cash_ledger", "ledger_cash", "comm_calls")
 
 
@@ -918,6 +926,18 @@ class C09(Spec):
                     if bad:
                         viol.append({"check": "c09_universe", "detail": "on date #%d the parent sees universe['kid'][%d]=%r, the child's index is %r" % (t, bad[0], col[bad[0]], xa[bad[0]]), "flags": {}})
                         break
+        if not viol and nexc is None and aexc is None:
+            # ... and what the finished parent shows for the child, date for date (also the dates on which its own stack did not
+            # run: before it started, after it went bankrupt)
+            try:
+                col = sim.root.universe["kid"].to_numpy(dtype=float, na_value=float("nan"))
+            except Exception:  # noqa
+                col = None
+            if col is not None and len(col) == len(xn) and len(xn) == len(xa):
+                bad = [i for i in range(1, len(col)) if not (col[i] == xa[i] or (col[i] != col[i] and xa[i] != xa[i]))]
+                if bad:
+                    viol.append({"check": "c09_universe", "detail": "after the run the parent's universe['kid'][%d]=%r, the child's index is %r (parent bankrupt: %r)" % (bad[0], col[bad[0]], xa[bad[0]], bool(sim.root.bankrupt)), "flags": {"after_run": True}})
+                fired["universe_column_read_after_run"] = 1
         nontriv = bool(len(xa) and (np.abs(xa - 100.0) > 1e-9).any())
         info["universe_reads"] = len(captured)
         return dict(viol=viol, fired=fired, nontrivial=nontriv, info=info, dates=len(sim.dates) * 2, steps=len(sim.spy_log))
@@ -1081,6 +1101,11 @@ class C11(Spec):
         if i % 10 == 9:
             # a blotter (rows in any order) handed in as additional data and replayed: one more frame that belongs to the caller
             plan = drive_engine.gen_replay_plan(r, tier)
+        elif i % 10 == 4:
+            # unit-risk tables (a dict of frames inside additional_data, some securities missing from some tables): nested
+            # inputs are the caller's too
+            plan = SPECS["C20"].gen(r, tier, 4 * r.randrange(1000))
+            plan["cfg"]["obs_eod"] = False
         else:
             plan = drive_engine.gen_all_algos_plan(r, tier, stateful=True, random_algos=(i % 2 == 0) or sweep)
         if sweep and r.random() < 0.5:
